@@ -323,13 +323,15 @@ def check(ctx):
     need = any("ModelClientException" in ir.show(t, maxdepth=2) and pc and pc[-1][1] and _when_no_model(pc[-1][0]) for pc, t, n in cs.raises)
     ctx.ob("C08.R6.model", f"{cf.qualname}|requires a model", need, cf.where(),
            "raises ModelClientException when no estimate run has happened" if need else "does not reject a missing model with the client error")
-    d = next((x for _, t_, _ in cs.effects for x in ir.walk(t_) if x[0] == "loopout" and x[3] == ("dict", ())), None)
+    from ..colwrites import dict_entries
+    d = next((x for _, t_, _ in cs.effects for x in ir.walk(t_) if dict_entries(x)), None)
     okloop = False
-    if d is not None and d[0] == "loopout":
-        body = d[4]
-        okloop = (body[0] == "setitem" and body[2][0] == "elem" and body[2][1] == ("param", "alphas")
-                  and body[3][0] == "call" and body[3][1][0] == "attr" and body[3][1][2] == "get_national_summary_estimates"
-                  and body[3][2] == (("param", "nat_sum_data_dict"), ("param", "base_to_add"), body[2]))
+    if d is not None:
+        ents = dict_entries(d)
+        LEVEL = ("elem", ("param", "alphas"), 0)
+        okloop = len(ents) == 1 and ents[0][0] == LEVEL and ents[0][2] == ("param", "alphas") and ents[0][1][0] == "call" \
+            and ents[0][1][1][0] == "attr" and ents[0][1][1][2] == "get_national_summary_estimates" \
+            and ents[0][1][2] == (("param", "nat_sum_data_dict"), ("param", "base_to_add"), LEVEL)
     ctx.ob("C08.R6.levels", f"{cf.qualname}|every requested level", okloop, cf.where(),
            "one summary per requested level, keyed by the level, with the caller's weights and base" if okloop
            else f"levels loop not recognised: {ir.show(d, maxdepth=5) if d else None}")
